@@ -266,13 +266,16 @@ Definition model_skeleton : list sstep :=
   [mkstep (OpCreateTemp [46]%N model_pattern) [];
    mkstep (OpSave FHandle) [];
    mkstep (OpRename FHandle (FConst dot_gr)) []].
+(* the prelude in the translator's canonical form (gen/gen_autosave.go preludeLines): ARG0 = the *eval.State,
+   ARG1 = the Options; "eval c" = the call c is made here; f()#i = the i-th result of that call *)
 Definition model_prelude : list string :=
-  ["if !options.AutoSave return nil"%string;
-   "oldS, newS := s.UpdateNumSet()"%string;
-   "updates := newS - oldS"%string;
-   "if updates == 0 return nil"%string].
+  ["if !ARG1.AutoSave return nil"%string;
+   "eval ARG0.UpdateNumSet()"%string;
+   "if (ARG0.UpdateNumSet()#0 == ARG0.UpdateNumSet()#1) return nil"%string].
+(* what UpdateNumSet returns and stores, in the translator's notation (gen/gen_autosave.go summarize): the previous
+   value of its private field, env.NumSet(), and the field set to env.NumSet() *)
 Definition model_updatenumset : list string :=
-  ["oldvalue = s.lastNumSet"%string; "newvalue = s.env.NumSet()"%string; "s.lastNumSet = newvalue"%string; "return"%string].
+  ["result0 = init(FIELD)"%string; "result1 = s.env.NumSet()"%string; "FIELD := s.env.NumSet()"%string].
 
 (* ---------------------------------------------------------------- enumeration used by the runner *)
 Definition obs : Type := (option bytes * option bytes)%type.      (* contents of the state file and of tmp *)
